@@ -291,7 +291,10 @@ def specC04 (s : St) (status : String) : List String := Id.run do
         if seqs != wseqs then
           let missing := wseqs.filter (fun q => !seqs.contains q)
           let extra := seqs.filter (fun q => !wseqs.contains q)
-          let kind := if extra.isEmpty && !missing.isEmpty && missing == wseqs.drop (wseqs.length - missing.length) then "stranded-tail"
+          -- `stranded-tail`: exactly the written sequences above the last cursor value are missing (never released to the
+          -- consumers — F8); published-but-undelivered sequences are something else
+          let lastCur := (cups.getLast?.map (·.1)).getD 0
+          let kind := if extra.isEmpty && !missing.isEmpty && missing == wseqs.filter (· > lastCur) then "stranded-tail"
                       else if extra.isEmpty && missing == [0] then "first-event" else "other"
           out := out ++ [s!"SPECFAIL C04 handler {k}.{j} delivered≠published kind={kind} missing={missing.take 8} extra={extra.take 8} producer={if s.cfg.multi then "multi" else "single"}"]
       -- payload
